@@ -1,6 +1,203 @@
 import ZarrsModel.Model.Partial
 import ZarrsModel.Props.C09
-/- helper lemmas for C02 -/
+import ZarrsModel.Lemmas.PartialBytes
+import ZarrsModel.Lemmas.PartialArray
+import ZarrsModel.Lemmas.PartialDecode
+import ZarrsModel.Lemmas.PartialTranspose
+import ZarrsModel.Lemmas.PartialSqueeze
+/-
+helper lemmas for C02.  The per-decoder facts live in `PartialBytes` (bytes-to-bytes decoders), `PartialArray`
+(region extraction), `PartialDecode` (`bytes` decoder, array cache), `PartialTranspose` and `PartialSqueeze`;
+this file unfolds `Chain.encode` / `Chain.partialDecoder` into structural recursions and composes the stages.
+-/
 namespace Zarrs.Partial
+open Zarrs Zarrs.Codec
+
+/-! ### the chain as structural recursions -/
+
+/-- the decoded shape of every array-to-array stage, then the innermost encoded shape -/
+def aShapes : List AStage → Shape → List Shape
+  | [], sh => [sh]
+  | st :: rest, sh => sh :: aShapes rest (st.encShape sh)
+
+def aEnc : List AStage → Shape → List Elem → List Elem
+  | [], _, xs => xs
+  | st :: rest, sh, xs => aEnc rest (st.encShape sh) (st.enc sh xs)
+
+def aPD : List AStage → Shape → AHandle → AHandle
+  | [], _, h => h
+  | st :: rest, sh, h => st.pd sh (aPD rest (st.encShape sh) h)
+
+theorem shapes_fold (sh0 : Shape) (stages : List AStage) : ∀ (pre : List Shape) (s : Shape),
+    stages.foldl (fun (acc : List Shape) st => acc ++ [st.encShape (acc.getLastD sh0)]) (pre ++ [s]) =
+      pre ++ aShapes stages s := by
+  induction stages with
+  | nil => intro pre s; rfl
+  | cons st rest ih =>
+    intro pre s
+    rw [List.foldl_cons, List.getLastD_concat, ih (pre ++ [s]) (st.encShape s), List.append_assoc]
+    rfl
+
+theorem aShapes_getLastD (stages : List AStage) : ∀ (s d : Shape),
+    (aShapes stages s).getLastD d = shapesOf stages s := by
+  induction stages with
+  | nil => intro s d; rfl
+  | cons st rest ih =>
+    intro s d
+    rw [aShapes, List.getLastD_cons, ih]
+    rfl
+
+theorem zip_foldr (stages : List AStage) : ∀ (sh : Shape) (inner : AHandle),
+    (List.zip stages (aShapes stages sh)).foldr (fun (p : AStage × Shape) h => p.1.pd p.2 h) inner =
+      aPD stages sh inner := by
+  induction stages with
+  | nil => intro sh inner; rfl
+  | cons st rest ih =>
+    intro sh inner
+    rw [aShapes, List.zip_cons_cons, List.foldr_cons, ih]
+    rfl
+
+theorem enc_fold (stages : List AStage) : ∀ (sh : Shape) (xs : List Elem),
+    stages.foldl (fun (acc : List Elem × Shape) st => (st.enc acc.2 acc.1, st.encShape acc.2)) (xs, sh) =
+      (aEnc stages sh xs, shapesOf stages sh) := by
+  induction stages with
+  | nil => intro sh xs; rfl
+  | cons st rest ih =>
+    intro sh xs
+    rw [List.foldl_cons, ih]
+    rfl
+
+theorem encode_eq (c : Chain) (sh : Shape) (xs : List Elem) :
+    c.encode sh xs = c.b2b.foldl (fun b st => st.enc b) (bytesEnc c.big c.unit (aEnc c.a2a sh xs).flatten) := by
+  unfold Chain.encode
+  rw [enc_fold]
+
+theorem partialDecoder_eq (c : Chain) (sh : Shape) (fill : Elem) (input : BHandle) :
+    c.partialDecoder sh fill input =
+      aPD c.a2a sh (bytesPD c.big c.es c.unit (shapesOf c.a2a sh) fill (c.b2b.foldr (fun st h => st.pd h) input)) := by
+  have h1 : c.a2a.foldl (fun (acc : List Shape) st => acc ++ [st.encShape (acc.getLastD sh)]) [sh] =
+      aShapes c.a2a sh := shapes_fold sh c.a2a [] sh
+  unfold Chain.partialDecoder
+  simp only [h1, aShapes_getLastD]
+  exact zip_foldr c.a2a sh _
+
+/-! ### bytes-to-bytes stages -/
+
+theorem bChain_ok (stages : List BStage)
+    (hstep : ∀ st ∈ stages, ∀ (b : Bytes) (g : BHandle), BHandleOk g (st.enc b) → BHandleOk (st.pd g) b) :
+    ∀ (b : Bytes) (h : BHandle), BHandleOk h (stages.foldl (fun b st => st.enc b) b) →
+      BHandleOk (stages.foldr (fun st h => st.pd h) h) b := by
+  induction stages with
+  | nil => intro b h hh; exact hh
+  | cons st rest ih =>
+    intro b h hh
+    rw [List.foldr_cons]
+    apply hstep st (by simp) b
+    exact ih (fun st' hst' => hstep st' (by simp [hst'])) (st.enc b) h hh
+
+theorem bStage_absent (st : BStage) (h : BHandle) (hh : BHandleAbsent h) : BHandleAbsent (st.pd h) := by
+  cases st with
+  | stripSuffix n sum => exact stripSuffixPD_absent n h hh
+  | decodeAll enc dec => exact decodeAllPD_absent dec h hh
+  | cache => exact bytesCachePD_absent h hh
+
+theorem bChain_absent (stages : List BStage) (h : BHandle) (hh : BHandleAbsent h) :
+    BHandleAbsent (stages.foldr (fun st h => st.pd h) h) := by
+  induction stages with
+  | nil => exact hh
+  | cons st rest ih => exact bStage_absent st _ ih
+
+/-! ### array-to-array stages -/
+
+/-- what a stage needs of the decoded shape it is applied to -/
+def AStage.ok : AStage → Shape → Prop
+  | .transpose order, sh => validOrder order sh.length = true
+  | .squeeze, sh => ∀ d ∈ sh, 0 < d
+  | .cache, _ => True
+
+def aOk : List AStage → Shape → Prop
+  | [], _ => True
+  | st :: rest, sh => st.ok sh ∧ aOk rest (st.encShape sh)
+
+theorem aStage_length (st : AStage) (sh : Shape) (xs : List Elem) (ho : st.ok sh) (hx : xs.length = prod sh) :
+    (st.enc sh xs).length = prod (st.encShape sh) := by
+  cases st with
+  | transpose order => exact transposeEnc_length order sh xs
+  | squeeze => rw [prod_encShape_squeeze sh ho]; exact hx
+  | cache => exact hx
+
+theorem aStage_mem (st : AStage) (sh : Shape) (xs : List Elem) (ho : st.ok sh) (hx : xs.length = prod sh) :
+    ∀ y ∈ st.enc sh xs, y ∈ xs := by
+  cases st with
+  | transpose order => exact mem_transposeEnc order sh xs ho hx
+  | squeeze => intro y hy; exact hy
+  | cache => intro y hy; exact hy
+
+theorem aStage_fill (st : AStage) (sh : Shape) (f : Elem) (ho : st.ok sh) :
+    st.enc sh (List.replicate (prod sh) f) = List.replicate (prod (st.encShape sh)) f := by
+  cases st with
+  | transpose order => exact transpose_fill' order sh f ho
+  | squeeze => rw [prod_encShape_squeeze sh ho]; rfl
+  | cache => rfl
+
+theorem aStage_step (st : AStage) (sh : Shape) (xs : List Elem) (h : AHandle) (ho : st.ok sh)
+    (hx : xs.length = prod sh) (hh : AHandleOk h (st.encShape sh) (st.enc sh xs)) :
+    AHandleOk (st.pd sh h) sh xs := by
+  cases st with
+  | transpose order => exact transposePD_ok' order sh h xs ho hx hh
+  | squeeze => exact squeezePD_ok' sh h xs ho hx hh
+  | cache => exact arrayCachePD_ok sh h xs hx hh
+
+theorem aChain_ok (stages : List AStage) : ∀ (sh : Shape) (xs : List Elem) (inner : AHandle),
+    aOk stages sh → xs.length = prod sh → AHandleOk inner (shapesOf stages sh) (aEnc stages sh xs) →
+    AHandleOk (aPD stages sh inner) sh xs := by
+  induction stages with
+  | nil => intro sh xs inner _ _ hin; exact hin
+  | cons st rest ih =>
+    intro sh xs inner ha hx hin
+    exact aStage_step st sh xs _ ha.1 hx
+      (ih (st.encShape sh) (st.enc sh xs) inner ha.2 (aStage_length st sh xs ha.1 hx) hin)
+
+theorem aEnc_chunk (es : Nat) (stages : List AStage) : ∀ (sh : Shape) (xs : List Elem),
+    aOk stages sh → xs.length = prod sh → (∀ x ∈ xs, x.length = es) →
+    (aEnc stages sh xs).length = prod (shapesOf stages sh) ∧ ∀ x ∈ aEnc stages sh xs, x.length = es := by
+  induction stages with
+  | nil => intro sh xs _ hx he; exact ⟨hx, he⟩
+  | cons st rest ih =>
+    intro sh xs ha hx he
+    exact ih (st.encShape sh) (st.enc sh xs) ha.2 (aStage_length st sh xs ha.1 hx)
+      (fun y hy => he y (aStage_mem st sh xs ha.1 hx y hy))
+
+theorem aEnc_fill (f : Elem) (stages : List AStage) : ∀ (sh : Shape), aOk stages sh →
+    aEnc stages sh (List.replicate (prod sh) f) = List.replicate (prod (shapesOf stages sh)) f := by
+  induction stages with
+  | nil => intro sh _; rfl
+  | cons st rest ih =>
+    intro sh ha
+    show aEnc rest (st.encShape sh) (st.enc sh (List.replicate (prod sh) f)) = _
+    rw [aStage_fill st sh f ha.1, ih (st.encShape sh) ha.2]
+    rfl
+
+/-! ### the two chain theorems, with the hypotheses in the form of this file -/
+
+theorem chain_ok (c : Chain) (sh : Shape) (fill : Elem) (xs : List Elem)
+    (hes : 0 < c.es) (hu : 0 < c.unit) (hdiv : c.es % c.unit = 0)
+    (hxl : xs.length = prod sh) (hxe : ∀ x ∈ xs, x.length = c.es) (ha : aOk c.a2a sh)
+    (hb : ∀ st ∈ c.b2b, ∀ (b : Bytes) (g : BHandle), BHandleOk g (st.enc b) → BHandleOk (st.pd g) b) :
+    AHandleOk (c.partialDecoder sh fill (storeHandle (some (c.encode sh xs)))) sh xs := by
+  rw [partialDecoder_eq, encode_eq]
+  obtain ⟨hl, he⟩ := aEnc_chunk c.es c.a2a sh xs ha hxl hxe
+  apply aChain_ok c.a2a sh xs _ ha hxl
+  apply bytesPD_ok' c.big c.es c.unit _ fill _ _ hes hu hdiv hl he
+  apply bChain_ok c.b2b hb
+  exact storeHandle_some_ok _
+
+theorem chain_absent (c : Chain) (sh : Shape) (fill : Elem) (ha : aOk c.a2a sh) :
+    AHandleOk (c.partialDecoder sh fill (storeHandle none)) sh (List.replicate (prod sh) fill) := by
+  rw [partialDecoder_eq]
+  apply aChain_ok c.a2a sh _ _ ha (by simp)
+  rw [aEnc_fill fill c.a2a sh ha]
+  apply bytesPD_absent'
+  exact bChain_absent c.b2b _ storeHandle_none_absent
 
 end Zarrs.Partial
